@@ -40,6 +40,7 @@ never matches a finding):
   * the JSON grammar rejects whitespace inside an empty container  [ ]  { }    (padded rendering)
   * the JSON grammar rejects whitespace between a key and the colon            (padded rendering)
 """
+import io
 import itertools
 import json
 import re
@@ -70,12 +71,14 @@ ASSUMPTIONS = [
 ]
 
 BOUNDS = {
-    "quick": {"term_nodes": 4, "input_len": 4, "call_nodes": 3, "xref": "<=3 nodes x all inputs, 4 nodes x len<=3",
+    "quick": {"term_nodes": 4, "extended_term_nodes": 3, "input_len": 4, "call_nodes": 3, "xref_ext_full": 3,
+              "xref": "<=3 nodes x all inputs, 4 nodes x len<=2",
               "json_depth": 3, "json_width": 2, "json_depth3": "one non-atomic child per container",
-              "tag_depth": 3, "tag_atoms": 5},
-    "thorough": {"term_nodes": 5, "input_len": 4, "call_nodes": 4, "xref": "<=4 nodes x all inputs, 5 nodes x len<=2",
+              "json_nesting": 12, "tag_depth": 3, "tag_atoms": 5},
+    "thorough": {"term_nodes": 5, "extended_term_nodes": 4, "input_len": 4, "call_nodes": 4, "xref_ext_full": 3,
+                 "xref": "<=4 nodes x all inputs (extended: <=3), larger x len<=2",
                  "json_depth": 3, "json_width": 2, "json_depth3": "all children of depth <= 2",
-                 "tag_depth": 3, "tag_atoms": 7},
+                 "json_nesting": 30, "tag_depth": 3, "tag_atoms": 7},
 }
 CAP_S = {"quick": 240, "thorough": 2400}
 
@@ -471,31 +474,87 @@ def agree(exp, got, with_pos=True):
     return same(got[1], exp[1])
 
 
+NL_INPUTS = ["".join(p) for n in (1, 2, 3, 4) for p in itertools.product("a\n", repeat=n) if "\n" in p]
+INPUTS_NL = INPUTS + NL_INPUTS
+SHORT = 2                   # __call__ on the largest terms is observed on inputs up to this length
+
+
+def schedule(t, size, tier):
+    """The operations run, in this order, on ONE parser object built from t: [via, input] pairs.
+    Every input through process(); through __call__ as well (all inputs for the smaller terms, the short
+    ones for the largest); for the smaller terms a second pass through process() in reverse order, so
+    that every input is also run after longer ones on the same object.  Inputs outside the quantifier
+    (reference: LOOP) are left out.  Terms containing PosMarker also get the inputs with newlines."""
+    small = size <= BOUNDS[tier]["call_nodes"]
+    inputs = INPUTS_NL if has_kind(t, "mark") else INPUTS
+    ops = []
+    exps = {}
+    absorbed = {}
+    for s in inputs:
+        e = peg.evaluate(t, s)
+        if e is peg.LOOP:
+            continue
+        exps[s] = e
+        absorbed[s] = peg.Stats.absorbed
+        ops.append(("process", s))
+        if small or len(s) <= SHORT:
+            ops.append(("call", s))
+    skipped = len(inputs) - len(exps)
+    if small:
+        ops.extend([("process", s) for s in reversed(inputs) if s in exps])
+    return ops, exps, absorbed, skipped
+
+
+def run_op(parser, via, s):
+    return run_process(parser, s) if via == "process" else run_call(parser, s)
+
+
+def replay_history(hist, upto):
+    """Re-executes, in one process, what a terms unit did before it reached term `upto`: every earlier
+    term of the unit, freshly built, through its whole schedule.  Owns state that leaks from one grammar
+    to the next through module-level objects."""
+    terms = all_terms(BOUNDS[hist["tier"]]["term_nodes"])
+    for ti in range(hist["lo"], upto):
+        t = terms[ti]
+        ops = schedule(t, term_size(t), hist["tier"])[0]
+        try:
+            with cpu_guard():
+                parser = build(t)
+                for via, s in ops:
+                    if run_op(parser, via, s) is HANG:
+                        break
+        except BudgetExceeded:
+            pass
+
+
 def check_term_case(case):
-    """case = {"kind":"term","term":[...],"input":s,"via":"process"|"call","prior":[inputs run first on the same parser]}
+    """case = {"kind":"term","term":[...],"input":s,"via":"process"|"call",
+               "prior":[[via, input]...]   operations run first on the same parser object (optional),
+               "history":{"tier","lo","index"}   earlier terms of the unit run first in this process (optional)}
     -> list of (clause, expected, observed, features)."""
     t, s = case["term"], case["input"]
     via = case.get("via", "process")
     exp = peg.evaluate(t, s)
     if exp is peg.LOOP:
         return []                       # outside the quantifier (repetition over a non-consuming sub-term)
-    first_falsy = peg.Stats.sep_first_falsy > 0
-    first_none = peg.Stats.sep_first_none > 0
-    runner = run_process if via == "process" else run_call
+    leading = peg.Stats.sep_leading > 0
     budget_ctx()                        # imports happen outside the CPU guard
+    if case.get("history"):
+        replay_history(case["history"], case["history"]["index"])
     try:
         with cpu_guard():
             parser = build(t)
-            for q in case.get("prior", []):
+            for pv, q in case.get("prior", []):
                 if peg.evaluate(t, q) is not peg.LOOP:
-                    runner(parser, q)
-            got = runner(parser, s)
+                    run_op(parser, pv, q)
+            got = run_op(parser, via, s)
     except BudgetExceeded:
         got = HANG
     with_pos = via == "process"
     if agree(exp, got, with_pos):
         return []
-    feats = {"via": via, "stateful": bool(case.get("prior"))}
+    feats = {"via": via, "after_earlier_calls_on_the_same_object": bool(case.get("prior")),
+             "after_earlier_grammars_in_the_same_process": bool(case.get("history"))}
     if got is HANG:
         clause = "combinators:terminates"
     elif exp is peg.FAIL:
@@ -506,16 +565,14 @@ def check_term_case(case):
         clause = "combinators:end-position"
     else:
         clause = "combinators:value"
-    if got is not HANG and (first_none or first_falsy):
-        # Attribution only (never turns agreement into a violation): does the observation equal the
-        # reference with first sep_by instances dropped?  Nested sep_by compose: a tolerated dropped
-        # None can leave an *outer* first instance falsy ([] instead of [None]), hence the two passes.
-        if agree(peg.evaluate(t, s, peg.DROP_NONE), got, with_pos):
-            return [("tolerated:sep_by-first-none", None, None, {})]
-        dropped = agree(peg.evaluate(t, s, peg.DROP_FALSY), got, with_pos)
-        if dropped or first_falsy:
-            feats["sep_by_first_value_falsy"] = True
-            feats["equals_reference_with_falsy_first_sep_by_instance_dropped"] = dropped
+    if got is not HANG and leading:
+        # attribution only: the observation equals the definitional expansion Opt(x) then Many(sep >> x),
+        # which consumes "separator, instance" although no instance precedes the separator.  That family
+        # shows up as a wrong position, value or accept/reject decision depending on the enclosing term,
+        # so it gets a clause of its own - only when the expansion explains the observation completely.
+        feats["sep_by_separator_without_preceding_instance"] = True
+        if agree(peg.evaluate(t, s, peg.LEADING_SEP), got, with_pos):
+            clause = "combinators:sep_by-separator-follows-an-instance"
     return [(clause, describe(exp if with_pos or exp is peg.FAIL else (None, exp[1])), describe(got), feats)]
 
 
@@ -697,19 +754,6 @@ def j_without_empty_strings(v):
     return "e" if (isinstance(v, str) and v == "") else v
 
 
-def j_drop_falsy_first(plain):
-    """What json.loads' answer becomes when every array loses a falsy first element (bottom-up).
-    Attribution aid only - never decides a verdict."""
-    if isinstance(plain, list):
-        items = [j_drop_falsy_first(x) for x in plain]
-        if items and not items[0]:
-            items = items[1:]
-        return items
-    if isinstance(plain, dict):
-        return dict((k, j_drop_falsy_first(x)) for k, x in plain.items())
-    return plain
-
-
 def strict_eq(a, b):
     if type(a) is not type(b):
         return False
@@ -723,48 +767,140 @@ def strict_eq(a, b):
 _JL = None
 
 
-def j_loads():
+def j_entry(name="loads"):
+    """The two public entry points of the example module: loads(text) and load(file object)."""
     global _JL
     if _JL is None:
         from insights.parsr.examples import json_parser
-        _JL = json_parser.loads
-    return _JL
+        _JL = {"loads": json_parser.loads, "load": lambda text: json_parser.load(io.StringIO(text))}
+    return _JL[name]
 
 
 def check_json_case(case):
-    """case = {"kind":"json","value":<descriptor>,"render":<name>}"""
+    """case = {"kind":"json","value":<descriptor>,"render":<name>,"entry":"loads"|"load"}"""
     v, how = case["value"], case["render"]
     text = j_render(v, how)
     exp = json.loads(text)                       # the oracle
     if not strict_eq(exp, j_plain(v)):           # the harness' renderer must describe the value it claims to
         raise RuntimeError("C19 json renderer is wrong: %r renders as %r" % (v, text))
     facts = j_facts(v, how)
-    loads = j_loads()
+    loads = j_entry(case.get("entry", "loads"))
     status, got = guarded(loads, text)
+    feats = {"render": how, "entry": case.get("entry", "loads")}
     if status == "hang":
-        return [("json:terminates", {"text": text, "value": exp}, "no result within %d CPU-s" % DOC_GUARD_S, {"render": how})]
+        return [("json:terminates", {"text": text, "value": exp}, "no result within %d CPU-s" % DOC_GUARD_S, feats)]
     failed = status == "exc"
     if failed:
         got = "rejected: " + " ".join(str(got).split())[:120]
     elif strict_eq(got, exp):
         return []
-    feats = {"render": how, "json_contains_empty_string": facts["empty_string"]}
+    feats["json_contains_empty_string"] = facts["empty_string"]
     if failed:
         feats["json_whitespace_before_colon"] = how == "padded" and facts["nonempty_object"]
         feats["json_whitespace_inside_empty_container"] = how == "padded" and facts["empty_container"]
         # attribution only (never decides the verdict): is the same document accepted once the listed
         # triggers are taken out of it?  If not, something else rejects it and no finding may match.
         rtext = j_render(j_without_empty_strings(v), how, avoid_known_triggers=True)
-        explained = False
-        if rtext != text:
-            rstatus, rgot = guarded(loads, rtext)
-            explained = rstatus == "ok" and strict_eq(rgot, j_drop_falsy_first(json.loads(rtext)))
-        feats["accepted_once_listed_triggers_are_removed"] = explained
+        feats["accepted_once_listed_triggers_are_removed"] = rtext != text and guarded(loads, rtext)[0] == "ok"
         return [("json:accepts-documented-subset", {"text": text, "value": exp}, got, feats)]
-    pred = j_drop_falsy_first(exp)
-    feats["json_array_first_element_falsy"] = not strict_eq(pred, exp)
-    feats["equals_json_loads_with_falsy_first_array_elements_dropped"] = strict_eq(got, pred)
     return [("json:value-equals-json.loads", {"text": text, "value": exp}, jsonable(got), feats)]
+
+
+# ---- further JSON families (part "jsonx") ------------------------------------------------------
+
+J_SPECIAL_SCALARS = ["a,b]", "{:", " s ", "'", "tru", "[", "1", "null", "a b", 10, 100, -10, 0.5, -2.5, 12.25, 1.0, 99, 255]
+J_SMALL = [0, "", 7, ["A"]]
+
+
+def j_nested(shape, depth):
+    """Chains of containers `depth` deep around the scalar 7; siblings before / after the nested child."""
+    v = 7
+    for d in range(depth):
+        kind = shape if shape in "AO" else ("AO"[d % 2] if shape == "X" else shape[0])
+        sib = shape[1:] if len(shape) > 1 and shape[0] in "AO" else ""
+        if kind == "A":
+            v = ["A"] + ([0] if sib == "<" else []) + [v] + ([None] if sib == ">" else [])
+        else:
+            v = ["O"] + ([["b", 0]] if sib == "<" else []) + [["a", v]] + ([["c", None]] if sib == ">" else [])
+    return v
+
+
+def j_extra_values(tier):
+    """Duplicate keys, wider containers, special scalars, deep nesting - each a small closed family."""
+    out = []
+    for x in J_ATOMS:                                   # duplicate keys: the last one wins in json.loads
+        for y in J_ATOMS:
+            out.append(["O", ["a", x], ["a", y]])
+    for n in (3, 4):                                    # more than two elements
+        for items in itertools.product(J_SMALL, repeat=n):
+            out.append(["A"] + list(items))
+    for items in itertools.product([0, "", 7], repeat=3):
+        out.append(["O"] + [[k, x] for k, x in zip("abc", items)])
+    for x in J_SPECIAL_SCALARS:                         # neighbours and glue, multi-digit numbers
+        out += [x, ["A", x], ["A", 0, x], ["A", x, ""], ["O", ["a", x]]]
+        if isinstance(x, str):
+            out.append(["O", [x, 7]])
+    top = 12 if tier == "quick" else 30
+    for shape in ("A", "O", "X", "A<", "A>", "O<", "O>"):
+        for depth in range(4, top + 1, 1 if tier == "quick" else 2):
+            out.append(j_nested(shape, depth))
+    return out
+
+
+def j_edit_bases(tier):
+    d1 = list(J_ATOMS)
+    return d1 + list(j_containers(d1))
+
+
+def j_edited_tokens(v, edit):
+    toks = []
+    _j_tokens(v, toks)
+    if edit[0] == "del":
+        return toks[:edit[1]] + toks[edit[1] + 1:]
+    return toks[:edit[1]] + [","] + toks[edit[1]:]
+
+
+def j_edits(v):
+    toks = []
+    _j_tokens(v, toks)
+    return [["del", i] for i in range(len(toks))] + [["ins", i] for i in range(len(toks) + 1)]
+
+
+def check_json_edit_case(case):
+    """case = {"kind":"jsonedit","value":<descriptor>,"edit":["del",i]|["ins",i]}: the token list of the
+    compact document with one token deleted or one comma inserted, tokens separated by one space (no
+    new token can form).  json.loads decides: rejected there -> must be rejected; accepted -> same value."""
+    toks = j_edited_tokens(case["value"], case["edit"])
+    text = " ".join(toks)
+    try:
+        exp = ("ok", json.loads(text))
+    except ValueError:
+        exp = ("rejected", None)
+    status, got = guarded(j_entry("loads"), text)
+    feats = {"edit": case["edit"][0]}
+    if status == "hang":
+        return [("json:terminates", {"text": text}, "no result within %d CPU-s" % DOC_GUARD_S, feats)]
+    if exp[0] == "ok":
+        if status == "ok" and strict_eq(got, exp[1]):
+            return []
+        if status == "exc":
+            return [("json:accepts-documented-subset", {"text": text, "value": exp[1]},
+                     "rejected: " + " ".join(str(got).split())[:120], feats)]
+        return [("json:value-equals-json.loads", {"text": text, "value": exp[1]}, jsonable(got), feats)]
+    if status == "exc":
+        return []
+    # accepted although the standard decoder rejects it
+    lead = [i for i in range(1, len(toks)) if toks[i] == "," and toks[i - 1] in "[{"]
+    feats["json_comma_directly_after_opening_bracket"] = bool(lead)
+    if lead:
+        # attribution only: is the answer what the document means once those commas are taken out?
+        rest = [tk for i, tk in enumerate(toks) if i not in lead]
+        try:
+            feats["equals_document_without_those_commas"] = strict_eq(got, json.loads(" ".join(rest)))
+        except ValueError:
+            feats["equals_document_without_those_commas"] = False
+    return [("json:rejects-what-json.loads-rejects", {"text": text, "json.loads": "rejects"},
+             {"accepted_as": jsonable(got)}, feats)]
 
 
 # ---------------------------------------------------------------------------------------------
@@ -772,7 +908,9 @@ def check_json_case(case):
 # ---------------------------------------------------------------------------------------------
 
 TAGS = ["a", "b", "c"]
-TAGSETS = [list(c) for c in enumx.subsets(TAGS)]
+# all 8 subsets of {a,b,c}, plus sets whose tags have a plain tag as a prefix / substring (Eq is equality,
+# a regex atom is a search)
+TAGSETS = [list(c) for c in enumx.subsets(TAGS)] + [["ab"], ["ab", "c"], ["abc", "b"]]
 T_ATOMS = {
     "quick": [["tag", "a"], ["tag", "b"], ["tag", "c"], ["qtag", "a", '"'], ["re", "[ab]", None]],
     "thorough": [["tag", "a"], ["tag", "b"], ["tag", "c"], ["qtag", "a", '"'], ["qtag", "b", "'"],
@@ -780,18 +918,26 @@ T_ATOMS = {
 }
 T_BIN = [("and", "&"), ("or", "|"), ("or", ",")]
 
+# part "tagx": atoms that are prefixes of each other, contain operator characters / blanks inside quotes,
+# regex atoms with metacharacters (an unquoted regex runs to the next blank, documented), evaluated on all
+# subsets of a tag universe that contains those neighbours
+TX_ATOMS = [["tag", "a"], ["tag", "ab"], ["tag", "a.b-c_1"], ["qtag", "a b", "'"], ["qtag", "a&b", '"'],
+            ["qtag", "ab", '"'], ["re", "^a$", None], ["re", "a.", None], ["re", "^ab?$", None],
+            ["re", "a b", "'"], ["re", "a&b", None], ["re", "^a$|^b$", None], ["re", "\\w[&.]", None]]
+TX_TAGSETS = [list(c) for c in enumx.subsets(["a", "ab", "b", "a b", "a&b", "a.b-c_1"])]
 
-def t_asts(tier, depth_exact):
-    atoms = T_ATOMS[tier]
+
+def t_asts(tier, depth_exact, atoms=None):
+    atoms = T_ATOMS[tier] if atoms is None else atoms
     if depth_exact == 1:
         return atoms
-    key = (tier, depth_exact)
+    key = (tier, depth_exact, id(atoms))
     if key in _TA:
         return _TA[key]
     lower = []
     for d in range(1, depth_exact):
-        lower.extend(t_asts(tier, d))
-    prev = t_asts(tier, depth_exact - 1)
+        lower.extend(t_asts(tier, d, atoms))
+    prev = t_asts(tier, depth_exact - 1, atoms)
     prev_ids = set(id(x) for x in prev)
     out = [["not", x] for x in prev]
     for x in lower:
@@ -813,6 +959,22 @@ def t_all(tier):
     return out
 
 
+def t_extra_asts(tier):
+    """Special atoms at depth <= 2; redundant parentheses and negations nested up to 8 deep."""
+    out = list(TX_ATOMS) + list(t_asts("x", 2, TX_ATOMS))
+    a, b, c = ["tag", "a"], ["tag", "b"], ["tag", "c"]
+    for core in (a, ["or", a, b, "|"], ["and", ["or", a, b, ","], c, "&"]):
+        x = core
+        y = core
+        for depth in range(1, 9):
+            x = ["paren", x]
+            y = ["not", y]
+            out.append(x)
+            out.append(y)
+            out.append(["and", x, ["or", y, c, "|"], "&"])
+    return out
+
+
 def t_prec(a):
     return {"or": 1, "and": 2, "not": 3}.get(a[0], 4)
 
@@ -829,6 +991,10 @@ def t_tokens(a, full, out):
             out.append(("atom", "/" + a[2] + a[1] + a[2]))
         else:
             out.append(("regex", "/" + a[1]))      # runs until whitespace: must be followed by a space
+    elif k == "paren":                             # explicit redundant parentheses
+        out.append(("lp", "("))
+        t_tokens(a[1], full, out)
+        out.append(("rp", ")"))
     elif k == "not":
         out.append(("not", "!"))
         _t_child(a[1], 4, full, out)              # the operand of ! is an atom or a parenthesised expression
@@ -848,9 +1014,7 @@ def _t_child(c, need, full, out):
         t_tokens(c, full, out)
 
 
-def t_render(a, full, spaced):
-    toks = []
-    t_tokens(a, full, toks)
+def t_join(toks, spaced):
     out = [" "] if spaced else []
     for i, (kind, text) in enumerate(toks):
         out.append(text)
@@ -860,6 +1024,12 @@ def t_render(a, full, spaced):
         if spaced or (kind == "regex" and not last):
             out.append(" ")
     return "".join(out)
+
+
+def t_render(a, full, spaced):
+    toks = []
+    t_tokens(a, full, toks)
+    return t_join(toks, spaced)
 
 
 def t_renderings(a):
@@ -878,6 +1048,8 @@ def t_eval(a, tags):
         return a[1] in tags
     if k == "re":
         return any(re.search(a[1], x) for x in tags)
+    if k == "paren":
+        return t_eval(a[1], tags)
     if k == "not":
         return not t_eval(a[1], tags)
     if k == "and":
@@ -887,8 +1059,9 @@ def t_eval(a, tags):
 
 def t_levels(a, acc=None):
     acc = set() if acc is None else acc
-    if a[0] in ("not", "and", "or"):
-        acc.add(a[0])
+    if a[0] in ("not", "and", "or", "paren"):
+        if a[0] != "paren":
+            acc.add(a[0])
         for c in a[1:3]:
             if isinstance(c, list):
                 t_levels(c, acc)
@@ -906,11 +1079,35 @@ def t_parse():
     return _TP
 
 
+def t_truth_table(pred, tagsets, how):
+    """The predicate on every tag set. `how` = "call-list": pred(list) (the documented way);
+    "test-set": pred.test(set) - the docstring promises "a list or set of strings"."""
+    def table(p):
+        if how == "test-set":
+            return [p.test(set(ts)) for ts in tagsets]
+        return [p(list(ts)) for ts in tagsets]
+    status, val = guarded(table, pred)
+    if status == "ok":
+        return val
+    out = []
+    for ts in tagsets:                   # something raised or hung: find out where, one set at a time
+        st, v = guarded(lambda p: table_one(p, ts, how), pred)
+        out.append(v if st == "ok" else ("raised " + repr(v)[:60] if st == "exc" else "no result"))
+    return out
+
+
+def table_one(p, ts, how):
+    return p.test(set(ts)) if how == "test-set" else p(list(ts))
+
+
 def check_tag_case(case):
-    """case = {"kind":"tag","ast":[...],"full_parens":bool,"spaced":bool}"""
+    """case = {"kind":"tag","ast":[...],"full_parens":bool,"spaced":bool,
+               "universe":"abc"|"x" (which tag sets), "how":"call-list"|"test-set"}"""
     a = case["ast"]
     text = t_render(a, case["full_parens"], case["spaced"])
-    feats = {"spaced": bool(case["spaced"]), "full_parens": bool(case["full_parens"])}
+    tagsets = TX_TAGSETS if case.get("universe") == "x" else TAGSETS
+    how = case.get("how", "call-list")
+    feats = {"spaced": bool(case["spaced"]), "full_parens": bool(case["full_parens"]), "how": how}
     parse = t_parse()
     status, pred = guarded(parse, text)
     if status == "hang":
@@ -918,15 +1115,127 @@ def check_tag_case(case):
     if status == "exc":
         return [("taglang:accepts-documented-expression", {"text": text},
                  "rejected: " + " ".join(str(pred).split())[:120], feats)]
-    exp, got = [], []
-    for ts in TAGSETS:
-        exp.append(t_eval(a, ts))
-        status, val = guarded(pred, list(ts))
-        got.append(val if status == "ok" else ("raised " + repr(val)[:60] if status == "exc" else "no result"))
+    exp = [t_eval(a, ts) for ts in tagsets]
+    got = t_truth_table(pred, tagsets, how)
     if exp != got or any(type(g) is not bool for g in got):
         return [("taglang:boolean-meaning-under-stated-precedence",
-                 {"text": text, "truth_table_over_subsets_of_abc": exp}, got, feats)]
+                 {"text": text, "truth_table": exp, "tag_sets": tagsets if len(tagsets) <= 16 else "all subsets of the tagx universe"},
+                 got, feats)]
     return []
+
+
+# ---- malformed tag expressions: one token deleted from a spaced rendering ------------------------
+
+def t_recognise(toks):
+    """Token-level reading of the documented language:  expr := term ((| or ,) term)* ;
+    term := factor (& factor)* ;  factor := [!] (atom | '(' expr ')').  -> AST or None (malformed)."""
+    pos = [0]
+
+    def peek():
+        return toks[pos[0]] if pos[0] < len(toks) else (None, None)
+
+    def factor():
+        neg = False
+        if peek()[0] == "not":
+            neg = True
+            pos[0] += 1
+        kind, text = peek()
+        if kind in ("atom", "regex"):
+            pos[0] += 1
+            node = ["tok", text]
+        elif kind == "lp":
+            pos[0] += 1
+            node = expr()
+            if node is None or peek()[0] != "rp":
+                return None
+            pos[0] += 1
+        else:
+            return None
+        return ["not", node] if neg else node
+
+    def chain(sub, ops, kind):
+        left = sub()
+        while left is not None and peek()[0] == "op" and peek()[1] in ops:
+            sym = peek()[1]
+            pos[0] += 1
+            right = sub()
+            if right is None:
+                return None
+            left = [kind, left, right, sym]
+        return left
+
+    def term():
+        return chain(factor, "&", "and")
+
+    def expr():
+        return chain(term, "|,", "or")
+
+    node = expr()
+    if node is None or pos[0] != len(toks):
+        return None
+    return node
+
+
+def t_tok_eval(node, tags):
+    k = node[0]
+    if k == "tok":
+        text = node[1]
+        if text.startswith("/"):
+            body = text[1:]
+            if body[:1] in "'\"" and body[-1:] == body[:1]:
+                body = body[1:-1]
+            return any(re.search(body, x) for x in tags)
+        if text[:1] in "'\"" and text[-1:] == text[:1]:
+            text = text[1:-1]
+        return text in tags
+    if k == "not":
+        return not t_tok_eval(node[1], tags)
+    if k == "and":
+        return t_tok_eval(node[1], tags) and t_tok_eval(node[2], tags)
+    return t_tok_eval(node[1], tags) or t_tok_eval(node[2], tags)
+
+
+T_FIXED_MALFORMED = ["", " ", " \t\n ", "&", "a &", "& a", "a | ", ", a", "( a", "a )", "( )", "!", "a b", "a & | b", "( a | b ) c"]
+
+
+def check_tag_edit_case(case):
+    """case = {"kind":"tagedit","ast":[...],"delete":i}  (token i of the minimal spaced rendering removed)
+            | {"kind":"tagedit","text":"..."}             (fixed malformed texts: must be rejected).
+    Malformed -> parse must raise; still well-formed -> same Boolean meaning as the remaining tokens."""
+    if "text" in case:
+        text, node = case["text"], None
+    else:
+        toks = []
+        t_tokens(case["ast"], False, toks)
+        toks = toks[:case["delete"]] + toks[case["delete"] + 1:]
+        text = t_join(toks, True)
+        node = t_recognise(toks)
+    feats = {"well_formed_after_edit": node is not None}
+    status, pred = guarded(t_parse(), text)
+    if status == "hang":
+        return [("taglang:terminates", {"text": text}, "no result within %d CPU-s" % DOC_GUARD_S, feats)]
+    if node is None:
+        if status == "exc":
+            return []
+        return [("taglang:rejects-malformed-expression", {"text": text}, "accepted", feats)]
+    if status == "exc":
+        return [("taglang:accepts-documented-expression", {"text": text},
+                 "rejected: " + " ".join(str(pred).split())[:120], feats)]
+    exp = [t_tok_eval(node, ts) for ts in TAGSETS]
+    got = t_truth_table(pred, TAGSETS, "call-list")
+    if exp != got:
+        return [("taglang:boolean-meaning-under-stated-precedence", {"text": text, "truth_table": exp, "tag_sets": TAGSETS}, got, feats)]
+    return []
+
+
+def t_edit_cases(tier):
+    out = [{"kind": "tagedit", "text": x} for x in T_FIXED_MALFORMED]
+    for d in (1, 2):
+        for a in t_asts(tier, d):
+            toks = []
+            t_tokens(a, False, toks)
+            out += [{"kind": "tagedit", "ast": a, "delete": i} for i in range(len(toks))]
+    return out
 
 
 # ---------------------------------------------------------------------------------------------
@@ -935,18 +1244,25 @@ def check_tag_case(case):
 
 def units(tier, seed):
     b = BOUNDS[tier]
-    terms, _ = all_terms(b["term_nodes"])          # built in the parent: forked workers inherit it
+    terms = all_terms(b["term_nodes"])             # built in the parent: forked workers inherit it
     n = len(terms)
     per = 300 if tier == "quick" else 4000
     us = [{"part": "terms", "lo": lo, "hi": min(n, lo + per)} for lo in range(0, n, per)]
-    xper = 400 if tier == "quick" else 5000
+    xper = 600 if tier == "quick" else 6000
     us += [{"part": "xref", "lo": lo, "hi": min(n, lo + xper)} for lo in range(0, n, xper)]
     nj = len(j_values(tier))
     jper = 1200 if tier == "quick" else 6000
     us += [{"part": "json", "lo": lo, "hi": min(nj, lo + jper)} for lo in range(0, nj, jper)]
+    nx = len(j_extra_values(tier))
+    us += [{"part": "jsonx", "lo": lo, "hi": min(nx, lo + 250)} for lo in range(0, nx, 250)]
+    ne = len(j_edit_bases(tier))
+    us += [{"part": "jsonedit", "lo": lo, "hi": min(ne, lo + 120)} for lo in range(0, ne, 120)]
     nt = len(t_all(tier))
     tper = 700 if tier == "quick" else 2400
     us += [{"part": "taglang", "lo": lo, "hi": min(nt, lo + tper)} for lo in range(0, nt, tper)]
+    ntx = len(t_extra_asts(tier))
+    us += [{"part": "tagx", "lo": lo, "hi": min(ntx, lo + 350)} for lo in range(0, ntx, 350)]
+    us += [{"part": "tagedit"}]
     return us
 
 
@@ -960,52 +1276,51 @@ def run_unit(unit, tier):
     b = BOUNDS[tier]
 
     if part == "terms":
-        terms, size_bounds = all_terms(b["term_nodes"])
-        evaluate, LOOPV, FAILV, stats = peg.evaluate, peg.LOOP, peg.FAIL, peg.Stats
+        terms = all_terms(b["term_nodes"])
+        FAILV = peg.FAIL
         budget_ctx()                    # imports happen outside the CPU guard
+        hist = {"tier": tier, "lo": unit["lo"]}
         hangs = 0
         for ti in range(unit["lo"], unit["hi"]):
             t = terms[ti]
-            size = 1 + sum(1 for sb in size_bounds if ti >= sb)
-            do_call = size <= b["call_nodes"]
+            size = term_size(t)
             res.maxi("term_nodes_completed", size)
-            pending = []                # indices into INPUTS that disagreed; decided on the slow path below
+            ops, exps, absorbed, skipped = schedule(t, size, tier)
+            if skipped:
+                res.stat("pairs_skipped_repetition_over_nonconsuming", skipped)
+            if id(t) in _EXT_IDS:
+                res.stat("terms_with_extended_symbols", 1)
+            res.evals += len(exps)
+            res.nontrivial += sum(1 for s in exps if s and absorbed[s])
+            res.stat("call_evaluations", sum(1 for o in ops if o[0] == "call"))
+            res.stat("second_pass_evaluations", len(ops) - len(exps) - sum(1 for o in ops if o[0] == "call"))
+            pending = []                # indices into ops that disagreed; decided on the slow path below
             hung = False
-            idx = 0
+            k = 0
             try:
                 with cpu_guard():
                     parser = build(t)
-                    for idx, s in enumerate(INPUTS):
-                        exp = evaluate(t, s)
-                        if exp is LOOPV:
-                            res.stat("pairs_skipped_repetition_over_nonconsuming", 1)
-                            continue
-                        absorbed = stats.absorbed
-                        got = run_process(parser, s)
-                        res.evals += 1
-                        if absorbed and s:
-                            res.nontrivial += 1
-                        ok = agree(exp, got)
-                        if ok and do_call:
+                    for k, (via, s) in enumerate(ops):
+                        if via == "process":
+                            got = run_process(parser, s)
+                            ok = agree(exps[s], got)
+                        else:
                             got = run_call(parser, s)
-                            res.stat("call_evaluations", 1)
-                            ok = agree(exp, got, False)
+                            ok = agree(exps[s], got, False)
                         if not ok:
-                            pending.append(idx)
+                            pending.append(k)
                             if got is HANG:
                                 hung = True
-                                break       # do not burn the budget 121 times on a looping term
-                        if exp is FAILV:
-                            res.outcomes.add(t[0] + ":F")
-                        else:
-                            res.outcomes.add("%s:ok%d" % (t[0], exp[0]))
+                                break       # do not burn the budget on every input of a looping term
             except BudgetExceeded:
                 hung = True
-                if idx not in pending:
-                    pending.append(idx)
-            for n, i in enumerate(pending):
-                # the (expensive) reused-parser variant is tried for the first few disagreements of a term only
-                _report_term(res, t, INPUTS[i], INPUTS[:i] if n < 6 else None, do_call)
+                if k not in pending:
+                    pending.append(k)
+            for e in exps.values():
+                res.outcomes.add(t[0] + ":F" if e is FAILV else "%s:ok%d" % (t[0], e[0]))
+            for n, k in enumerate(pending):
+                # the (expensive) variants with earlier operations are tried for the first few disagreements only
+                _report_term(res, t, ops, k, dict(hist, index=ti) if n < 4 else None, deep=n < 4)
             if hung:
                 hangs += 1
                 if hangs >= MAX_HANGS_PER_UNIT:
@@ -1018,14 +1333,15 @@ def run_unit(unit, tier):
         return res
 
     if part == "xref":
-        terms, size_bounds = all_terms(b["term_nodes"])
+        terms = all_terms(b["term_nodes"])
         top = b["term_nodes"]
-        short = 3 if tier == "quick" else 2
         for ti in range(unit["lo"], unit["hi"]):
             t = terms[ti]
-            size = 1 + sum(1 for sb in size_bounds if ti >= sb)
-            for s in INPUTS:
-                if size == top and len(s) > short:
+            size = term_size(t)
+            ext = id(t) in _EXT_IDS
+            full = size < top if not ext else size <= b["xref_ext_full"]
+            for s in (INPUTS_NL if has_kind(t, "mark") else INPUTS):
+                if not full and len(s) > SHORT:
                     continue
                 a = peg.evaluate(t, s)
                 c = peg.tabular(t, s)
@@ -1034,18 +1350,22 @@ def run_unit(unit, tier):
                 res.stat("reference_cross_checked_pairs", 1)
         return res
 
-    if part == "json":
-        vals = j_values(tier)
+    if part in ("json", "jsonx"):
+        vals = j_values(tier) if part == "json" else j_extra_values(tier)
+        entries = ("loads",) if part == "json" else ("loads", "load")
         hangs = 0
         for vi in range(unit["lo"], unit["hi"]):
             v = vals[vi]
             for how in J_RENDERINGS:
-                case = {"kind": "json", "value": v, "render": how}
-                vio = check_json_case(case)
-                res.case(nontrivial=j_is_deep(v), outcome="json:%s:%s" % (how, vio[0][0] if vio else "agree"))
-                for c, e, o, f in vio:
-                    res.violation(c, case, e, o, f)
-                    hangs += c.endswith(":terminates")
+                for entry in entries:
+                    case = {"kind": "json", "value": v, "render": how}
+                    if entry != "loads":
+                        case["entry"] = entry
+                    vio = check_json_case(case)
+                    res.case(nontrivial=j_is_deep(v), outcome="%s:%s:%s" % (part, how, vio[0][0] if vio else "agree"))
+                    for c, e, o, f in vio:
+                        res.violation(c, case, e, o, f)
+                        hangs += c.endswith(":terminates")
             if hangs >= MAX_HANGS_PER_UNIT:
                 res.exhaustive = False
                 res.notes.append("a json unit was abandoned after %d non-terminating documents" % hangs)
@@ -1053,8 +1373,27 @@ def run_unit(unit, tier):
         res.samples.append({"kind": "json", "value": vals[unit["lo"]], "render": "indent"})
         return res
 
-    if part == "taglang":
-        asts = t_all(tier)
+    if part == "jsonedit":
+        bases = j_edit_bases(tier)
+        hangs = 0
+        for vi in range(unit["lo"], unit["hi"]):
+            v = bases[vi]
+            for edit in j_edits(v):
+                case = {"kind": "jsonedit", "value": v, "edit": edit}
+                vio = check_json_edit_case(case)
+                res.case(nontrivial=True, outcome="jsonedit:%s:%s" % (edit[0], vio[0][0] if vio else "agree"))
+                for c, e, o, f in vio:
+                    res.violation(c, case, e, o, f)
+                    hangs += c.endswith(":terminates")
+            if hangs >= MAX_HANGS_PER_UNIT:
+                res.exhaustive = False
+                res.notes.append("a jsonedit unit was abandoned after %d non-terminating documents" % hangs)
+                break
+        res.samples.append({"kind": "jsonedit", "value": bases[unit["lo"]], "edit": ["ins", 1]})
+        return res
+
+    if part in ("taglang", "tagx"):
+        asts = t_all(tier) if part == "taglang" else t_extra_asts(tier)
         hangs = 0
         for ai in range(unit["lo"], unit["hi"]):
             if hangs >= MAX_HANGS_PER_UNIT:
@@ -1063,57 +1402,70 @@ def run_unit(unit, tier):
                 break
             a = asts[ai]
             lv = t_levels(a)
-            for opts, _txt in t_renderings(a):
+            for n, (opts, _txt) in enumerate(t_renderings(a)):
                 case = {"kind": "tag", "ast": a, "full_parens": opts["full_parens"], "spaced": opts["spaced"]}
+                if part == "tagx":
+                    case["universe"] = "x"
+                if (ai + n) % 2:             # both documented ways of asking, alternating over the cases
+                    case["how"] = "test-set"
                 vio = check_tag_case(case)
                 res.case(nontrivial=len(lv) >= 2,
-                         outcome="tag:%s:%s" % ("".join(sorted(x[0] for x in lv)), vio[0][0] if vio else "agree"))
-                res.stat("tagset_evaluations", len(TAGSETS))
+                         outcome="%s:%s:%s" % (part, "".join(sorted(x[0] for x in lv)), vio[0][0] if vio else "agree"))
+                res.stat("tagset_evaluations", len(TX_TAGSETS if part == "tagx" else TAGSETS))
                 for c, e, o, f in vio:
                     res.violation(c, case, e, o, f)
                     hangs += c.endswith(":terminates")
         res.samples.append({"kind": "tag", "ast": asts[unit["lo"]], "full_parens": False, "spaced": True})
         return res
+
+    if part == "tagedit":
+        for case in t_edit_cases(tier):
+            vio = check_tag_edit_case(case)
+            res.case(nontrivial=True, outcome="tagedit:%s" % (vio[0][0] if vio else "agree"))
+            for c, e, o, f in vio:
+                res.violation(c, case, e, o, f)
+        res.samples.append({"kind": "tagedit", "text": "a &"})
+        return res
     raise ValueError(part)
 
 
-def _report_term(res, t, s, earlier, do_call):
-    """Slow path after a disagreement in the hot loop: decide on a freshly built parser first (so that
-    the recorded case replays from its descriptor alone); only if the fresh parser agrees is the
-    disagreement attributed to state kept in the parser object between inputs."""
-    found = False
-    for via in (("process", "call") if do_call else ("process",)):
-        variants = [None] + ([list(earlier)] if earlier else [])
-        for prior in variants:
-            case = {"kind": "term", "term": t, "input": s, "via": via}
-            if prior:
-                case["prior"] = prior
-            vio = check_term_case(case)
-            for c, e, o, f in vio:
-                if c.startswith("tolerated:"):
-                    res.stat(c.replace(":", "_"), 1)
-                else:
-                    res.violation(c, case, e, o, f)
-            if vio:
-                found = True
-                break
-        if any(c == "combinators:terminates" for c, _, _, _ in vio):
-            return                      # a second non-terminating run adds nothing
-    if not found:
-        res.stat("disagreements_not_reproduced_from_a_descriptor_and_not_recorded", 1)
-        note = "some hot-loop disagreements did not reproduce from a case descriptor and were not recorded (see counters)"
-        if note not in res.notes:
-            res.notes.append(note)
+def _report_term(res, t, ops, k, hist, deep):
+    """Slow path after a disagreement in the hot loop.  The recorded case must replay from its
+    descriptor alone, so the disagreement is re-decided (1) on a freshly built parser, (2) after the
+    operations that preceded it on the same parser object, (3) after the earlier grammars of the unit in
+    the same process - the first variant that reproduces it is recorded."""
+    via, s = ops[k]
+    variants = [{}]
+    if deep and k:
+        variants.append({"prior": [list(o) for o in ops[:k]]})
+    if hist:
+        variants.append({"prior": [list(o) for o in ops[:k]], "history": hist})
+    for extra in variants:
+        case = {"kind": "term", "term": t, "input": s, "via": via}
+        case.update((key, val) for key, val in extra.items() if val)
+        vio = check_term_case(case)
+        for c, e, o, f in vio:
+            res.violation(c, case, e, o, f)
+        if vio:
+            return
+    res.stat("disagreements_not_reproduced_from_a_descriptor_and_not_recorded", 1)
+    note = "some hot-loop disagreements did not reproduce from a case descriptor and were not recorded (see counters)"
+    if note not in res.notes:
+        res.notes.append(note)
 
 
 def replay(case):
     kind = case.get("kind")
     if kind == "term":
-        vio = [v for v in check_term_case(case) if not v[0].startswith("tolerated:")]
+        vio = check_term_case(case)
     elif kind == "json":
         vio = check_json_case(case)
+    elif kind == "jsonedit":
+        vio = check_json_edit_case(case)
     elif kind == "tag":
         vio = check_tag_case(case)
+    elif kind == "tagedit":
+        vio = check_tag_edit_case(case)
     else:
         raise ValueError(kind)
     return [{"clause": c, "case": case, "expected": e, "observed": o, "features": f} for c, e, o, f in vio]
